@@ -617,7 +617,7 @@ class Interp:
 
     def b_float(self, x=0.0):
         if isinstance(x, Num):
-            return x
+            return x           # nopython mode: float(float32) stays float32 (the f32 mark is kept); np.float64(x) widens
         if isinstance(x, (SInt, SBool)):
             raise Unsupported("float(machine int)")
         return float(x)
@@ -800,6 +800,14 @@ class Interp:
                 return f(*args, **kw)
             if isinstance(bound_self, (list, dict)) or (isinstance(bound_self, np.ndarray) and bound_self.dtype == object):
                 return f(*args, **kw)
+            if f in (np.float64, np.float32) and len(args) == 1 and not kw and isinstance(args[0], Num):
+                # widening (np.float64) keeps the value; np.float32 of a float32-marked value is the identity
+                x = args[0]
+                if f is np.float64:
+                    return Num(x.v, x.nan, x.inf, False) if x.f32 else x
+                if x.f32:
+                    return x
+                raise Unsupported("np.float32(float64 value): narrowing is not modelled")
             raise Unsupported(f"native call {getattr(f, '__qualname__', f)!r} with symbolic arguments")
         args = [self.typed(a) for a in args]
         kw = {k: self.typed(v) for k, v in kw.items()}
